@@ -53,7 +53,7 @@ func pipelineRootsC03(p *load.Program) []*load.FuncInfo {
 func CheckC03(c *Ctx) {
 	run := c.Run
 	run.Technique = "Kahn-network structure analysis on the stage graph derived by the shape calculus: determinacy lint (R1), channel linearity (R2), close-on-all-exits (R3), drain-on-exit (R4), symbolic buffer >= anchor skew at every fork/join (R5), length surplus at joins (R6)"
-	run.Explanation = "C03 quantifies over all schedules and is not decidable as a whole; it is decided through six structural rules that together are the Kahn-network argument the property anchors: (R1) no select, len(ch), cap(ch) outside make, timers or channel operations in stage closures anywhere in the pipeline packages, so every stage is a sequential process doing blocking receives and sends (determinate); (R2) every channel created in a pipeline is consumed by exactly one stage (or returned / handed to the report), Duplicate outputs included, with the EMA seed borrow recognised; (R3) every stage closes every channel it writes on every exit; (R4) a stage with several inputs drains all of them whichever input closes first; (R5) at every join of branches of one fork, the channel capacities plus the stages on the early branch (an upper bound of what it can hold) cover the anchor skew to the late branch, symbolically in the periods — exported Compute methods are also checked with all their inputs coming from one unbuffered fork; (R6) no join operand can be longer than another by more than that skew. Fairness, livelock, shortfalls smaller than the slack and runtime goroutines are not decided."
+	run.Explanation = "C03 quantifies over all schedules and is not decidable as a whole; it is decided through six structural rules that together are the Kahn-network argument the property anchors: (R1) no select, len(ch), cap(ch) outside make, timers or channel operations in stage closures anywhere in the pipeline packages, so every stage is a sequential process doing blocking receives and sends (determinate); (R2) every channel created in a pipeline is consumed by exactly one stage (or returned / handed to the report), Duplicate outputs included, with the EMA seed borrow recognised; (R3) every stage closes every channel it writes on every exit; (R4) a stage with several inputs drains all of them whichever input closes first; (R5) at every join of branches of one fork, the channel capacities plus the stages on the early branch (an upper bound of what it can hold) cover the anchor skew to the late branch plus the one element the early branch must take when the fork serves it before the branch the join reads first, symbolically in the periods — exported Compute methods are also checked with all their inputs coming from one unbuffered fork that serves them in parameter order; (R6) no join operand can be longer than another by more than that skew. Fairness, livelock, shortfalls smaller than the slack and runtime goroutines are not decided."
 	run.Trusted = []string{"go/types", "Kahn determinacy argument for sequential blocking stages", "stage summaries re-derived on this run", "Γ", "Fourier–Motzkin entailment"}
 	c.ruleR1()
 	roots := pipelineRootsC03(c.P)
@@ -351,9 +351,9 @@ func (c *Ctx) ruleR5R6(r *shape.Result, fi *load.FuncInfo) {
 	const virtual = -1
 	exported := ast.IsExported(fi.Fn.Name())
 	if exported && len(r.ParamStreams) > 1 {
-		for _, p := range r.ParamStreams {
+		for pi, p := range r.ParamStreams {
 			if _, ok := p.Paths[virtual]; !ok {
-				p.Paths[virtual] = &shape.PathInfo{Cap: lin.C(0), Stages: 0, Lead0: lin.C(0)}
+				p.Paths[virtual] = &shape.PathInfo{Cap: lin.C(0), Stages: 0, Lead0: lin.C(0), Idx: pi}
 			}
 		}
 		// propagate along the already-built graph in creation order
@@ -361,7 +361,7 @@ func (c *Ctx) ruleR5R6(r *shape.Result, fi *load.FuncInfo) {
 			for _, o := range st.Outs {
 				for _, in := range st.Ins {
 					if p, ok := in.S.Paths[virtual]; ok {
-						np := &shape.PathInfo{Cap: lin.Add(p.Cap, o.Cap), Stages: p.Stages + 1, Lead0: p.Lead0}
+						np := &shape.PathInfo{Cap: lin.Add(p.Cap, o.Cap), Stages: p.Stages + 1, Lead0: p.Lead0, Idx: p.Idx}
 						if old, ok := o.Paths[virtual]; ok {
 							if lin.ProveGE(r.G, lin.AddC(old.Cap, int64(old.Stages)), lin.AddC(np.Cap, int64(np.Stages))) {
 								continue
@@ -406,10 +406,16 @@ func (c *Ctx) ruleR5R6(r *shape.Result, fi *load.FuncInfo) {
 					if fid == virtual && !(e.S.Param != "" || l.S.Param != "" || true) {
 						continue
 					}
+					orderNote := ""
 					need := lin.Sub(l.LeadAt, e.LeadAt) // elements E must hold before L delivers
 					avail := lin.AddC(pe.Cap, int64(pe.Stages))
 					if e.Order < l.Order {
 						avail = lin.AddC(avail, 1) // the join holds E's element while waiting for L
+					} else if pl := l.S.Paths[fid]; pl != nil && pe.Idx < pl.Idx {
+						// the fork serves E's branch first but the join asks for L's first: E's branch has
+						// to take that element before the fork can turn to L's
+						need = lin.AddC(need, 1)
+						orderNote = " (one of them because the fork serves this branch before the one the join reads first)"
 					}
 					ok := true
 					for _, cx := range ctxs {
@@ -430,8 +436,8 @@ func (c *Ctx) ruleR5R6(r *shape.Result, fi *load.FuncInfo) {
 							return nonEmpty.Eval(env) >= 1 && avail.Eval(env) < need.Eval(env)
 						}, avail, need, nonEmpty)
 						run.Violate(report.Finding{Rule: rule, Site: site, Detail: det, Pos: c.P.Pos(st.Pos), Witness: w,
-							Message: fmt.Sprintf("branches %s join with an anchor skew of %s but the early branch (%s) can hold at most %s elements: the fork blocks on it while the join waits for the late branch (%s) — deadlock%s",
-								which, lin.Canon(r.G, need), e.S.Name, lin.Canon(r.G, avail), l.S.Name, pathNote(r)), Derivation: gammaStrings(r)})
+							Message: fmt.Sprintf("branches %s join where the early branch (%s) has to hold %s elements%s but can hold at most %s: the fork blocks on it while the join waits for the other branch (%s) — deadlock%s",
+								which, e.S.Name, lin.Canon(r.G, need), orderNote, lin.Canon(r.G, avail), l.S.Name, pathNote(r)), Derivation: gammaStrings(r)})
 					}
 				}
 				// R6: surplus of L over E at most the skew E->L... checked for every n
